@@ -61,9 +61,13 @@ def ctr_analysis(f, extra_sources=None, summaries=None, param_tags=None):
             tags[k] = set(v)
     summaries = summaries or {}
 
+    ftags = {}      # (local, field index) -> tags: counters carried in a struct/tuple (`QueueIndices { head, tail }`)
+
     def optags(op):
         if 'l' not in op:
             return set()
+        if len(op['p']) == 1 and op['p'][0]['k'] == 'field' and (op['l'], op['p'][0].get('i')) in ftags:
+            return set(ftags[(op['l'], op['p'][0].get('i'))])
         # (_x.0) of an overflow tuple inherits; other projections: field loads
         return set(tags.get(op['l'], ())) if (not op['p'] or all(p['k'] == 'field' and p.get('adt') == '{tuple}' for p in op['p'])) else set()
 
@@ -120,6 +124,17 @@ def ctr_analysis(f, extra_sources=None, summaries=None, param_tags=None):
                 elif k == 'agg' and rv.get('ak') == 'tuple':
                     for o in rv['ops']:
                         new |= optags(o)
+                if k == 'agg' and rv.get('ak') in ('tuple', 'adt') and rv.get('vidx') in (None, 0):
+                    for i_, o in enumerate(rv['ops']):
+                        ot = optags(o)
+                        if ot - ftags.get((lhs['l'], i_), set()):
+                            ftags.setdefault((lhs['l'], i_), set()).update(ot)
+                            changed = True
+                if k == 'use' and 'l' in rv['op'] and not rv['op']['p']:
+                    for (l_, i_), ts_ in list(ftags.items()):
+                        if l_ == rv['op']['l'] and ts_ - ftags.get((lhs['l'], i_), set()):
+                            ftags.setdefault((lhs['l'], i_), set()).update(ts_)
+                            changed = True
                 if new - tags.get(lhs['l'], set()):
                     tags.setdefault(lhs['l'], set()).update(new)
                     changed = True
